@@ -81,6 +81,7 @@ RULE = ("containers: every operation sequence of length <= L (set / get / del / 
         ">= 2 non-empty relations in which some rows conflict")
 
 SENT = object()
+_SINK = None
 
 
 # --------------------------------------------------------------------------------------------
@@ -587,7 +588,10 @@ def report(ctx, part, fails, case):
     """Turn the failures of one replay into verdicts; returns True iff nothing new (unknown) was found."""
     clean = True
     for f in fails:
-        if ctx.violation(f[0], f"[{part}] {f[1]}", case):
+        if _SINK is not None:               # binding self-test: failures are collected, not reported
+            _SINK.append((f[0], f[1]))
+            clean = False
+        elif ctx.violation(f[0], f"[{part}] {f[1]}", case):
             clean = False
     return clean
 
@@ -1308,8 +1312,11 @@ def selftest(ctx):
     mcfg = dict(keys=[3, 8, 10], vals=[1, 2], modes=["plain", "d1"], maxlen=2, others=MAP_OTHERS, upd=[4], mrg=[4], inits=[0, 4])
     scfg = dict(keys=[3, 8, 10], maxlen=2, others=SET_OTHERS, bin=[4], binops=["or", "and", "rsub"], inits=[0, 4], pop=1)
 
+    global _SINK
+    _SINK = []
+
     def sigs():
-        return {(v[0], v[1]) for v in ctx.violations}
+        return set(_SINK)
 
     def attempt(name, f):
         nonlocal ok
@@ -1369,4 +1376,5 @@ def selftest(ctx):
         attempt("dict (1b) corrupted dict_merge result", lambda: run_dict(ctx, "chain", 2, "small", "both", "st6b", mut=flip("merge")))
         attempt("dict (2) one merge not executed", lambda: run_dict(ctx, "chain", 2, "small", "both", "st7", drop=0))
         attempt("join (1) extra row in the real result", lambda: run_dict(ctx, "join", 2, "small", "right", "st8", mut=flip("join")))
+    _SINK = None
     return ok
